@@ -144,19 +144,13 @@ theorem endOverlaps_relabel (hσ : ∀ a b, σ a = σ b → a = b) (L R : Seg) (
 theorem trimEnd_relabel (hσ : ∀ a b, σ a = σ b → a = b) (e : Pr) (xs : List APos) :
     trimEnd (relabelPr σ τ e) (xs.map (relabelAPos σ τ)) = (trimEnd e xs).map (List.map (relabelAPos σ τ)) := by
   unfold trimEnd
-  simp only [List.isEmpty_map]
-  split
-  · rfl
-  · rw [← List.map_reverse, List.dropWhile_map]
-    have e1 : ((fun a => !a.isPair && !a.leqAny (relabelPr σ τ e)) ∘ relabelAPos σ τ) =
-        (fun a => !a.isPair && !a.leqAny e) := by
-      funext a
-      simp [APosleqAny_relabel σ τ hσ]
-    rw [e1]
-    simp only [List.isEmpty_map]
-    split
-    · rfl
-    · simp [Except.map, List.map_reverse]
+  rw [← List.map_reverse, List.dropWhile_map]
+  have e1 : ((fun a => !a.isPair && !a.leqAny (relabelPr σ τ e)) ∘ relabelAPos σ τ) =
+      (fun a => !a.isPair && !a.leqAny e) := by
+    funext a
+    simp [APosleqAny_relabel σ τ hσ]
+  rw [e1]
+  simp [Except.map, List.map_reverse]
 
 theorem slice_relabel (hσ : ∀ a b, σ a = σ b → a = b) (s : Seg) (a : SP) (e : Pr) :
     (relabelSeg σ τ s).slice (mapSP σ τ a) (mapSP σ τ (.pr e)) =
